@@ -790,6 +790,11 @@ pub fn add_wide_and_deep(spec: &mut Snapshot, rng: &mut Rng, block: usize, max_p
         spec.insert(format!("{wide}/d{i:02}"), Node::dir());
         spec.insert(format!("{wide}/d{i:02}/x"), Node::file(gen_content(rng, i)));
     }
+    // files merely NAMED like a cache-directory tag (empty, wrong signature, signature not at
+    // the start): by the cachedir specification these directories are ordinary data
+    for (i, content) in [&b""[..], &b"Signature: 8a477f597d28d172789f06886806bc54"[..], &b"# Signature: 8a477f597d28d172789f06886806bc55\n"[..]].iter().enumerate() {
+        spec.insert(format!("{wide}/d{i:02}/CACHEDIR.TAG"), Node::file(content.to_vec()));
+    }
     let long_ascii = "L".repeat(250);
     let long_multi = "é".repeat(125);
     for name in [long_ascii.as_str(), long_multi.as_str(), "a\\b", "trailing.", "trailing ", "CON", "~", "-", "..."] {
